@@ -58,6 +58,11 @@ CLAIMED.update({
          "Isolation and determinism of inference: substituted schemas always cloned, no shallow copies, per-call table and cycle set, nothing shared is written, cycle mark removed on every exit, map iterations order-insensitive, tag options exact, order de-duplicated. Not agreement with encoding/json for every tag string (D8, D9).", "4/C16"),
 })
 
+CLAIMED.update({
+ "C01": ("field-read coverage of the closure of Validate against the keyword classification; guard analysis of the two `type` forms; provenance of the integers compared with minLength/maxLength; finite ordering evaluation of the four bound comparisons; dominating guards of additionalProperties; plus shared rules (order, visits-all, presence-is-nil, order-insensitivity, per-occurrence references)",
+         "Necessary clauses of 2020-12 validity visible in the code on every path: every keyword has a handler, integer-is-number in both type forms, lengths in code points, bounds fail on exactly the right orderings, additionalProperties blind to annotations, in-place applicators before unevaluated*, deterministic iteration. Not the verdict of any schema/instance pair.", "4/C01"),
+})
+
 NOT_YET = "static clauses designed in DESIGN.md section 4 but the rule is not built yet in this session"
 
 def main():
